@@ -4,6 +4,7 @@ single quotes): the per-leaf hypotheses of the marker-text theorem (`LeafPrintOK
 `QLeaf E`, and the domains built on it.  Copy of Proofs/MarkerPrintDom.lean over `QuoteValue` / `LexableQ`.
 -/
 import PoetryVerif.Proofs.MarkerAlgSoundQuote
+import PoetryVerif.Proofs.MarkerAlgSoundRevQuote
 import PoetryVerif.Proofs.MarkerPrintDom
 import PoetryVerif.Proofs.MarkerPrint4LL
 
@@ -494,6 +495,118 @@ theorem fullQLL_fullQQ {C : String → Prop} {E : Env} {l : Leaf} (h : FullQLL C
     · exact Or.inl ⟨h.1, h.2.1, fun x hx => (h.2.2 x hx).quote⟩
     · exact Or.inr h
   · exact Or.inl (Or.inr ⟨h.1, fun x hx => (h.2 x hx).quote⟩)
+  · exact Or.inr h
+
+/-! ### the four-operator fragment, reversed-operand literals with quotes -/
+
+/-- string leaves with the four operators, all values may hold a double quote -/
+def Str4QR (C : String → Prop) (E : Env) (l : Leaf) : Prop := Str4LeafT GTok QuoteValue ValOkQ C E l
+
+theorem leafSpec_str4QR {C : String → Prop} (hC : ∀ u v, C u → C v → strIn u v = true ∨ strIn v u = true)
+    (E : Env) : LeafSpec (leafEval E) (Str4QR C E) := leafSpec_str4K (T := GTok) (mkAtomOKW_quote E) hC
+
+theorem printOK_str4QR {C : String → Prop} {E : Env} : ∀ l, Str4QR C E l → LeafPrintOK (leafEval E) (Str4QR C E) l := by
+  intro l hl
+  have hl' := hl
+  rcases hl with hl | ⟨n, ops, gop, v, hop, hn, hv, hq, hev, hC, rfl⟩
+  · exact (printOK_strQ hl).mono (fun l h => Or.inl h)
+  · obtain ⟨hn1, hn2⟩ := plainStringVars_facts n hn
+    refine leafPrintOK_single hl' ?_
+    have := mkSingle_revQ n v hn1 hv ops gop hop
+    rw [hn2] at this
+    exact this
+
+theorem lexableQ_str4QR {C : String → Prop} {E : Env} : ∀ l, Str4QR C E l → Leaf.LexableQ l := by
+  intro l hl
+  rcases hl with hl | ⟨n, ops, gop, v, hop, hn, hv, hq, hev, hC, rfl⟩
+  · exact lexableQ_q (E := E) l (Or.inl hl)
+  · exact leafLexableQ_single (plainStringVars_names' hn) (inOps_ops hop) hq
+
+/-- four-operator strings and `extra`, all values may hold a double quote -/
+def Plain4QR (C : String → Prop) (E : Env) (l : Leaf) : Prop := Str4QR C E l ∨ XLeafW QuoteValue l
+
+theorem leafSpec_plain4QR {C : String → Prop} (hC : ∀ u v, C u → C v → strIn u v = true ∨ strIn v u = true)
+    {E : Env} {ex : List String} (hX : E.extras = some ex) : LeafSpec (leafEval E) (Plain4QR C E) := by
+  refine LeafSpec.or (leafSpec_str4QR hC E) (leafSpec_extraW mkExtraOKW_quote hX) ?_
+  intro a b ha hb
+  obtain ⟨hx, hp, _⟩ := str4Leaf_view ha
+  have hb' := xLeaf_name hb.1
+  obtain ⟨p1, p2⟩ := isPyName_false hp
+  refine ⟨?_, ?_, ?_⟩
+  · rw [hb']; simpa using hx
+  · simp [pyPair, p1, p2]
+  · simp [pyPair, p1, p2]
+
+theorem plain4QR_name {C : String → Prop} {E : Env} {l : Leaf} (h : Plain4QR C E l) :
+    l.name = "extra" ∨ l.name ∈ plainStringVars := by
+  rcases h with h | h
+  · exact Or.inr (str4Leaf_view h).2.2.1
+  · exact Or.inl (xLeaf_name h.1)
+
+theorem plain4QR_evaluable {C : String → Prop} {E : Env} {ex : List String} (hX : E.extras = some ex) {l : Leaf}
+    (h : Plain4QR C E l) : ∃ b, l.validate E = .ok b := by
+  rcases h with h | h
+  · exact str4Leaf_evaluable h
+  · exact xLeaf_evaluable mkExtraOKW_quote hX h
+
+theorem printOK_plain4QR {C : String → Prop} {E : Env} {ex : List String} (hX : E.extras = some ex) :
+    ∀ l, Plain4QR C E l → LeafPrintOK (leafEval E) (Plain4QR C E) l := by
+  intro l hl
+  rcases hl with hl | hl
+  · exact (printOK_str4QR l hl).mono (fun l h => Or.inl h)
+  · exact (printOK_extraQ hX hl).mono (fun l h => Or.inr h)
+
+theorem lexableQ_plain4QR {C : String → Prop} {E : Env} : ∀ l, Plain4QR C E l → Leaf.LexableQ l := by
+  intro l hl
+  rcases hl with hl | hl
+  · exact lexableQ_str4QR l hl
+  · exact lexableQ_q (E := E) l (Or.inr hl)
+
+/-! ### the printable domain, reversed-operand literals with quotes -/
+
+/-- four-operator strings, `extra` (all values may hold a double quote), `python_version` with the seven
+operators and lists, `python_full_version` with the seven operators and lists -/
+def FullQR (C : String → Prop) (E : Env) (l : Leaf) : Prop := Plain4QR C E l ∨ PyLeafLL l
+
+theorem leafSpec_fullQR {C : String → Prop} (hC : ∀ u v, C u → C v → strIn u v = true ∨ strIn v u = true)
+    {E : Env} {ex : List String} (hX : E.extras = some ex) {X Y Z : Nat} (hE : EnvPy E X Y Z) :
+    LeafSpec (leafEval E) (FullQR C E) := by
+  refine LeafSpec.or (leafSpec_plain4QR hC hX) (leafSpec_pyLL hE) ?_
+  intro a b ha hb
+  have hb' := pyLeafLL_name hb
+  rcases plain4QR_name ha with h | h
+  · rcases hb' with hb' | hb' <;> (rw [pyPair, pyPair, h, hb']; decide)
+  · simp only [plainStringVars, List.mem_cons, List.mem_nil_iff, or_false] at h
+    rcases hb' with hb' | hb' <;>
+      rcases h with h | h | h | h | h | h | h <;> (rw [pyPair, pyPair, h, hb']; decide)
+
+theorem printOK_fullQR {C : String → Prop} {E : Env} {ex : List String} (hX : E.extras = some ex) :
+    ∀ l, FullQR C E l → LeafPrintOK (leafEval E) (FullQR C E) l := by
+  intro l hl
+  rcases hl with hl | hl
+  · exact (printOK_plain4QR hX l hl).mono (fun l h => Or.inl h)
+  · exact (printOK_pyLL l hl).mono (fun l h => Or.inr h)
+
+theorem lexableQ_fullQR {C : String → Prop} {E : Env} : ∀ l, FullQR C E l → Leaf.LexableQ l := by
+  intro l hl
+  rcases hl with hl | hl
+  · exact lexableQ_plain4QR l hl
+  · exact (lexable_pyLL l hl).toQ
+
+theorem fullQR_evaluable {C : String → Prop} {E : Env} {ex : List String} (hX : E.extras = some ex) {X Y Z : Nat}
+    (hE : EnvPy E X Y Z) {l : Leaf} (h : FullQR C E l) : ∃ b, l.validate E = .ok b := by
+  rcases h with h | h
+  · exact plain4QR_evaluable hX h
+  · exact pyLeafLL_evaluable hE h
+
+/-- the domain with quote-free reversed-operand literals is part of it -/
+theorem fullQQ_fullQR {C : String → Prop} {E : Env} {l : Leaf} (h : FullQQ C E l) : FullQR C E l := by
+  rcases h with (h | h) | h
+  · refine Or.inl (Or.inl ?_)
+    rcases h with h | ⟨n, ops, gop, v, hop, hn, hv, hq, hev, hC, rfl⟩
+    · exact Or.inl h
+    · exact Or.inr ⟨n, ops, gop, v, hop, hn, hv.gTok, Or.inl hq, hev, hC, rfl⟩
+  · exact Or.inl (Or.inr h)
   · exact Or.inr h
 
 end Poetry.Marker
